@@ -58,6 +58,16 @@ def generate(rng, tier, stats):
                                                        "classes": ["old_ready"] * 4 + ["old_notready"],
                                                        "strategy": {"maxUnavailable": 2, "maxPodSchedulerFailure": 0},
                                                        "annotations": {}}))
+    # more stuck nodes than maxPodSchedulerFailure tolerates, maxUnavailable above that, available outdated pods left: the
+    # stuck nodes beyond the tolerance count against the unavailable budget
+    for _ in range(24 if tier == "quick" else 300):
+        msf = rng.choice([0, 1, 2])
+        nn = rng.choice([8, 10, 12])
+        out.append(worldgen.gen_ers_world(rng, stats, {"scenario": "active", "n": nn, "open_gates": True, "no_faults": True,
+                                                       "classes": ["old_ready"] * 5 + ["stuck_unscheduled", "stuck_terminating", "stuck_unscheduled"] + ["uptodate_ready"],
+                                                       "strategy": {"maxUnavailable": rng.choice([msf + 1, msf + 2, 4, "50%"]), "maxPodSchedulerFailure": msf},
+                                                       "annotations": {}}))
+        wprop.bump(stats, "more stuck nodes than the tolerance", "maxPodSchedulerFailure %d" % msf)
     return out
 
 
